@@ -3,11 +3,12 @@
    and ExtrOcamlString (ascii -> char, string -> char list).  No Extract Constant.
    nat, N, positive stay the extracted inductive types. *)
 From Coq Require Extraction ExtrOcamlBasic ExtrOcamlString.
-From FV Require Import Scope Engine SplitLine Text Reader Detect Include.
+From FV Require Import Scope Engine SplitLine Text Reader Detect Include One.
 Extraction Language OCaml.
 Cd "../ocaml/extracted".
 
 Separate Extraction Engine.program_new Engine.est0 Engine.shape Engine.mkTable Engine.mkCentry
   Engine.mkBspec Engine.mkItem Engine.mkInfo Scope.depth Engine.yield
   SplitLine.splitquote SplitLine.splitparen Reader.read_source Reader.rst0 Reader.next_item Reader.put_item
-  Text.extract_label Text.extract_construct_name Detect.detect_free Include.aread Include.mkArdr.
+  Text.extract_label Text.extract_construct_name Detect.detect_free Include.aread Include.mkArdr
+  One.fill One.oshape One.flattens One.mkOItem One.mkOBlock.
